@@ -25,14 +25,18 @@ func init() {
 }
 
 type c12Inv struct {
-	M    string `json:"m"`
-	Repo string `json:"repo"`
-	From string `json:"from,omitempty"`
+	M       string `json:"m"`
+	Repo    string `json:"repo"`
+	From    string `json:"from,omitempty"`
+	EmptyID bool   `json:"empty_upload_id,omitempty"` // PushBlobChunkedResume with the empty upload ID
 }
 
 func (i c12Inv) String() string {
 	if i.M == "MountBlob" {
 		return fmt.Sprintf("MountBlob(%s->%s)", i.From, i.Repo)
+	}
+	if i.EmptyID {
+		return i.M + "(" + i.Repo + ",id=\"\")"
 	}
 	return i.M + "(" + i.Repo + ")"
 }
@@ -40,7 +44,11 @@ func (i c12Inv) String() string {
 var c12Dig = sha256Digest([]byte("hello"))
 
 func (i c12Inv) args() opArgs {
-	return opArgs{Repo: i.Repo, From: i.From, Tag: "t", ID: "upload-id-1", Digest: c12Dig, O0: 1, O1: 3, Chunk: 2,
+	id := "upload-id-1"
+	if i.EmptyID {
+		id = ""
+	}
+	return opArgs{Repo: i.Repo, From: i.From, Tag: "t", ID: id, Digest: c12Dig, O0: 1, O1: 3, Chunk: 2,
 		DescDigest: c12Dig, DescSize: 5, Data: []byte("hello"), MediaType: "application/octet-stream", StartAfter: "", ArtifactType: ""}
 }
 
@@ -49,7 +57,7 @@ func c12Invocations() []c12Inv {
 	for _, m := range allMethods {
 		switch m {
 		case "MountBlob":
-			out = append(out, c12Inv{m, "a", "b"}, c12Inv{m, "a", "a"}, c12Inv{m, "b", "a"})
+			out = append(out, c12Inv{M: m, Repo: "a", From: "b"}, c12Inv{M: m, Repo: "a", From: "a"}, c12Inv{M: m, Repo: "b", From: "a"})
 		case "Repositories":
 			out = append(out, c12Inv{M: m})
 		default:
@@ -61,6 +69,8 @@ func c12Invocations() []c12Inv {
 	for _, m := range []string{"GetBlob", "PushBlob", "PushBlobChunked", "PushBlobChunkedResume", "DeleteBlob", "Tags"} {
 		out = append(out, c12Inv{M: m, Repo: "b"})
 	}
+	// resuming "nothing": still a write to that repository, still the same method on the wrapped registry
+	out = append(out, c12Inv{M: "PushBlobChunkedResume", Repo: "a", EmptyID: true}, c12Inv{M: "PushBlobChunkedResume", Repo: "b", EmptyID: true})
 	return out
 }
 
@@ -474,12 +484,12 @@ func c12Check(r *vcore.Run) vcore.Coverage {
 		}
 		star := []c12Inv{{M: m, Repo: "*"}}
 		if m == "MountBlob" {
-			star = []c12Inv{{m, "*", "a"}, {m, "a", "*"}}
+			star = []c12Inv{{M: m, Repo: "*", From: "a"}, {M: m, Repo: "a", From: "*"}}
 		}
 		// ... and the empty name (a mount request without a source, say) is a name like any other
 		empty := []c12Inv{{M: m, Repo: ""}}
 		if m == "MountBlob" {
-			empty = []c12Inv{{m, "a", ""}, {m, "", "a"}}
+			empty = []c12Inv{{M: m, Repo: "a", From: ""}, {M: m, Repo: "", From: "a"}}
 		}
 		for _, inv := range append(star, empty...) {
 			for _, allowed := range [][]string{nil, {"a"}, {"a", "b", "c"}} {
@@ -521,6 +531,13 @@ func c12Check(r *vcore.Run) vcore.Coverage {
 	vcore.ParallelN(len(lists), func(i int) { c12RunList(r, lists[i]) })
 	evals += int64(len(lists))
 	nontrivial += int64(len(lists))
+	// overlapping requests on one wrapper (needs the instrumented build)
+	cexec, cpoints, ccomplete, cnotes := c12Concurrent(r)
+	evals += cexec
+	r.Notes["concurrent_overlap_harnesses"] = cnotes
+	r.Notes["concurrent_schedules"] = cexec
+	r.Notes["concurrent_scheduling_points"] = cpoints
+	_ = ccomplete
 	r.Sample("sequence", c12Case{Wrapper: "AccessChecker", Mask: 0b10, Denied: c12SlotNames(0b10), Seq: []c12Inv{{M: "GetBlob", Repo: "a"}, {M: "PushBlob", Repo: "a"}}})
 	r.Sample("listing", c12ListCase{Wrapper: "Select", Repos: []string{"a", "b", "d"}, Allowed: []string{"a", "d"}, After: "a", StopAfter: 1, ErrAfter: -1})
 	r.Assume = []string{
@@ -528,11 +545,18 @@ func c12Check(r *vcore.Run) vcore.Coverage {
 		"policies are pure functions of (name, kind)",
 	}
 	return vcore.Coverage{Evaluations: evals, Nontrivial: nontrivial, Exhaustive: true,
-		Rule: fmt.Sprintf("AccessChecker: all %d deny assignments over 9 (repository, kind) slots x all sequences of <= 2 (thorough: <= 3) of %d invocations on one wrapper instance; Select: all 8 allow sets x the same sequences; listings: all backend subsets x allowed subsets of a %d-name universe x start points x stop-after-k x backend-error-after-j; non-trivial = mixed allow/deny", nmask, len(invs), nu),
+		Rule: fmt.Sprintf("AccessChecker: all %d deny assignments over 9 (repository, kind) slots x all sequences of <= 2 (thorough: <= 3) of %d invocations on one wrapper instance; Select: all 8 allow sets x the same sequences; listings: all backend subsets x allowed subsets of a %d-name universe x start points x stop-after-k x backend-error-after-j; overlapping requests on one wrapper: 8 harnesses of 2-3 threads whose policy function is a scheduling point, all schedules, no backend call for the rejected repository; non-trivial = mixed allow/deny", nmask, len(invs), nu),
 	}
 }
 
 func c12Replay(r *vcore.Run, sub string, raw json.RawMessage) {
+	if sub == "sched" {
+		var c c12ConcCase
+		if json.Unmarshal(raw, &c) == nil {
+			c12ConcReplay(r, c)
+		}
+		return
+	}
 	if sub == "list" {
 		var c c12ListCase
 		if json.Unmarshal(raw, &c) == nil {
